@@ -63,6 +63,16 @@ func w2History(r *prng.R, matcher int, special int) []w2call {
 			}
 		}
 	default:
+		if special >= 64000 {
+			// one maximally expensive operation at a given offset near the end of the first
+			// noise chunk (see gen "chunkedge"): the margin the writer keeps below the 64 KiB
+			// compressed chunk limit must cover it wherever it falls
+			h = append(h, w2call{Op: 'W', Fam: fmt.Sprintf("chunkedge:%d", special), N: 6<<20 + 70000, Seed: r.U64()})
+			if r.Bool() {
+				h = append(h, w2call{Op: 'F'})
+			}
+			break
+		}
 		n := r.Range(1, 14)
 		for i := 0; i < n; i++ {
 			switch r.Intn(10) {
@@ -93,9 +103,12 @@ func checkC08(c *ev.Ctx) {
 	c.SetRule("call histories over {Write(p), Flush, Close} for lzma.Writer2 (1-14 calls before Close plus 1-3 calls after it; payload families and lengths 0..2 MiB; special histories placing Flush at +-1 around the 64 KiB compressed and 2 MiB uncompressed chunk limits and between compressible/incompressible payloads) x Writer2Config (all lc/lp/pb with lc+lp<=4, DictCap 4096..1 MiB, BufSize 273..65536, both matchers). At every successful Flush the sink prefix is decoded by the reference decoder in open mode and by lzma.Reader2; after Close by Reader2, the strict reference and liblzma. distinct non-trivial = distinct (history shape string | dict class | bufsize | matcher | chunk kinds emitted)")
 	c.Assume("sequential reference model: W = concatenation of all bytes accepted by Write so far", "internal/ref and liblzma as LZMA2 decoders")
 	n := 1500
+	nedge := 80
 	if thorough(c) {
 		n = 12000
+		nedge = 400 // five different noise seeds per offset
 	}
+	nhist := n
 	c.MinEvals(int64(n / 2))
 	par(n, func(i int) {
 		id := fmt.Sprintf("h%d", i)
@@ -121,6 +134,7 @@ func checkC08(c *ev.Ctx) {
 			c.Count("configs_from_full_lclp_space_accepted", 1)
 		}
 		special := 0
+		edgeSeed := uint64(0)
 		if i%25 < 4 {
 			special = i%25 + 0
 			if special == 0 {
@@ -136,7 +150,24 @@ func checkC08(c *ev.Ctx) {
 				cfg.Matcher = lzma.HashTable4
 			}
 		}
+		if edge := i - (nhist - nedge); edge >= 0 {
+			// the last nedge histories sweep one expensive operation across the end of a chunk
+			// (same data and properties for all offsets of a sweep, so that the end of the chunk
+			// is at the same place in all of them)
+			special, matcher = 64575+edge%80, 0
+			cfg.Matcher, cfg.DictCap, cfg.BufSize = lzma.HashTable4, 8<<20, 4096
+			pp = [2]int{3, 0}
+			cfg.Properties = &lzma.Properties{LC: 3, LP: 0, PB: 2}
+			edgeSeed = c.Seed*1000 + uint64(edge/80) + 1
+		}
 		hist := w2History(r, matcher, special)
+		if edgeSeed != 0 {
+			for k := range hist {
+				if hist[k].Op == 'W' && hist[k].N > 1<<20 {
+					hist[k].Seed = edgeSeed
+				}
+			}
+		}
 		var shape []string
 		for _, k := range hist {
 			shape = append(shape, k.String())
